@@ -39,6 +39,7 @@ from . import ltl as L
 HEADER = "from simverif.userlib import tab, tabv, ev, evv, fault, val, Tok, ftab, prop, fspec\n"
 
 _FTAB = False  # set per render(): conditions carry a fault point (C14)
+_EGO = None  # set per render(): name of the object that is also bound to `ego`
 _MODE2D = False  # set per render(): program is compiled in 2D compatibility mode
 
 
@@ -158,6 +159,8 @@ def render_setup(stmts, ind, out, objpos):
             )
             pos = f"({x}, {y})" if _MODE2D else f"({x}, {y}, 0)"
             out.append(f"{pad}{s[1]} = new Object at {pos}, with name {s[1]!r}{beh}{extra}")
+            if _EGO == s[1]:
+                out.append(f"{pad}ego = {s[1]}")
         elif op == "monitor":
             out.append(f"{pad}require monitor {_call(s[1])}")
         elif op == "termwhen":
@@ -206,8 +209,9 @@ def _guard(k):
 
 
 def render(prog):
-    global _FTAB, _MODE2D
+    global _FTAB, _MODE2D, _EGO
     _FTAB = bool(prog.get("ftab"))
+    _EGO = prog.get("ego")
     _MODE2D = bool(prog.get("mode2D"))
     out = [HEADER.rstrip()]
     if prog.get("uses_grej"):
@@ -726,7 +730,12 @@ class Ref:
         self.emit("create", name)
 
     def do_override(self, S, obj, prop, value):
-        uid = S.objvars[obj]
+        if obj == "ego" and obj not in S.objvars:
+            # the ego is inherited from the parent scenario
+            ego = self.p.get("ego")
+            uid = next(u for u in self.objects if self.oname[u] == ego)
+        else:
+            uid = S.objvars[obj]
         old = self.props.get((uid, prop))
         if self.bugs.get("override_first_only") and any(o == uid for o, _, _ in S.overrides):
             pass  # BUG MODEL: only the first override statement per object is remembered
